@@ -1101,7 +1101,7 @@ def rule_rematch(ctx, F):
 
 def rule_lossy(ctx, F):
     R = "C01.lossy"
-    ctx.floor(R, 1)
+    ctx.floor(R, 2)
     n = 0
     for p, b in sorted(F.bodies.items()):
         if "::test" in p or not b.file.startswith("src/"):
@@ -1153,7 +1153,7 @@ def rule_lossy(ctx, F):
 
 def rule_clone(ctx, F):
     R = "C01.clone"
-    ctx.floor(R, 3)
+    ctx.floor(R, 50)
     n = 0
     for p, b in sorted(F.bodies.items()):
         m = re.match(r"^<(base::(message|question|record|opt|name)[\w:]*)(<.*>)? as core::clone::Clone>::clone$", p)
